@@ -48,7 +48,7 @@ def config_args(cfg, seed=1):
         a += ["--again", str(seed), str(cfg["again"])]
     a += ["--cfg", str(cfg["threads"]), "--mca", "mca_sched", cfg["sched"]]
     if cfg["iter"] is not None:
-        a += ["--mca", "runtime_task_startup_iter", str(cfg["iter"]), "--mca", "runtime_task_startup_chunk", str(cfg["chunk"])]
+        a += ["--mca", "task_startup_iter", str(cfg["iter"]), "--mca", "task_startup_chunk", str(cfg["chunk"])]
     return a
 
 
@@ -95,7 +95,7 @@ class PtgCheck(Check):
     harness_src = None          # the harness is linked per generated program
     link_parsec = True
     mode = "inst"
-    run_timeout = 60            # seconds per configuration (a hang is an observation)
+    run_timeout = int(os.environ.get("VERIF_PTG_TIMEOUT", "60"))   # seconds per configuration (a hang is an observation)
     jobs = 12
 
     # ---- build: libparsec + ptgpp (ensure_parsec, by the base class), the driver object, the model driver
